@@ -377,6 +377,8 @@ var mapSetters = [][4]string{
 // the output point of the variable-base MSM's inner routines: written on every path (an untouched accumulator is
 // the all-zero pseudo-point, not the identity)
 var msmOutputs = [][4]string{
+	{"banderwagon", "Element", "MultiExp", "p"},
+	{"bandersnatch", "", "MultiExp", "p"},
 	{"bandersnatch", "", "msmInnerPointProj", "p"},
 	{"bandersnatch", "", "msmReduceChunkPointAffine", "p"},
 	{"bandersnatch", "", "msmReduceChunkPointAffineDMA", "p"},
